@@ -119,7 +119,24 @@ def negated_if(tree):
     return ast.fix_missing_locations(T().visit(tree))
 
 
-VARIANTS = {"reformat": lambda t: t, "rename": rename_locals, "rettemp": return_temp, "ifelse": if_else, "condtemp": cond_temp, "negif": negated_if}
+def mul_swap(tree):
+    """`a * b` -> `b * a` when both operands are names, attributes, subscripts or numbers (no calls: evaluation order is kept)"""
+    simple = (ast.Name, ast.Attribute, ast.Subscript, ast.Constant)
+
+    class T(ast.NodeTransformer):
+        def visit_BinOp(self, n):
+            self.generic_visit(n)
+            if isinstance(n.op, ast.Mult) and isinstance(n.left, simple) and isinstance(n.right, simple) \
+                    and not any(isinstance(x, ast.Constant) and isinstance(x.value, (str, bytes)) for x in (n.left, n.right)) \
+                    and not any(isinstance(c, ast.Call) for x in (n.left, n.right) for c in ast.walk(x)):
+                n.left, n.right = n.right, n.left
+            return n
+
+    return ast.fix_missing_locations(T().visit(tree))
+
+
+VARIANTS = {"reformat": lambda t: t, "rename": rename_locals, "rettemp": return_temp, "ifelse": if_else, "condtemp": cond_temp, "negif": negated_if,
+            "mulswap": mul_swap}
 
 
 def build(variant):
